@@ -74,7 +74,7 @@ pub fn withdraw_family() -> GenParams {
         txs: (4, 10),
         n_eoa: 12,
         n_con: 1,
-        mix: Mix { slots: 12, ..Mix::default() },
+        mix: Mix { slots: 13, ..Mix::default() },
         kind_w: [16, 0, 0, 0],
         hot_sender_pct: 0,
         withdraw_contract: true,
@@ -162,7 +162,7 @@ pub fn c02() -> SchedCampaign {
                 Class::Commit,
                 Class::Mv,
             ],
-            directors: obs::D_CLAIM_LOCK | obs::D_VALIDATE_SCAN | obs::D_EXEC_PUBLISH | obs::D_COORD | obs::D_ESTIMATE_REWIND,
+            directors: obs::D_CLAIM_LOCK | obs::D_VALIDATE_SCAN | obs::D_EXEC_PUBLISH | obs::D_COORD | obs::D_ESTIMATE_REWIND | obs::D_GATE,
         },
         seq_pct: 2,
     }
@@ -399,8 +399,8 @@ fn dep_heavy() -> SchedCampaign {
             chaos: 3,
             focus: 8,
             director: 6,
-            focus_classes: &[Class::Dep, Class::Commit, Class::ExecStart, Class::Abort],
-            directors: obs::D_COORD | obs::D_COMMIT_HEAD | obs::D_FINISH_AT_HEAD,
+            focus_classes: &[Class::Dep, Class::Commit, Class::ExecStart, Class::Abort, Class::ExecPublish, Class::Mv],
+            directors: obs::D_COORD | obs::D_COMMIT_HEAD | obs::D_FINISH_AT_HEAD | obs::D_EXEC_PUBLISH | obs::D_GATE,
         },
         seq_pct: 0,
     }
